@@ -9,13 +9,14 @@ PID = "C04"
 IMPORTS = "From OV Require Import Model.Vector Model.Matrix Model.Banded."
 MODEL_VO = ["Model/Banded.vo"]
 EXHAUSTIVE = True
-RULE = ("band.hist cases (initial compact storage with every padding slot set to a loud value, then operations, state dumped after each): "
-        "(a) every (n,m1,m2), 0<=m1,m2<n, n=1..6 quick / 1..10 thorough (quick adds a seeded sample of n=7..10) x 7 rational sign patterns "
-        "(mixed, negative dominant diagonal, zero diagonal over nonzero sub-diagonal, tiny positive sub-diagonals under a negative diagonal, "
-        "all negative, positive dominant, singular) x [getall, size, mulv, det, solve]; (b) the arithmetic operators and compound assignments on "
-        "every triple; (c) f64 and Complex<f64> on every triple (tiny sub-diagonals 1e-20, scaled rows, NaN/inf/1e300 padding); "
-        "(d) padding written through new / fill_band / index_mut (in-band, column >= n) / += constant; (e) mismatched sizes, out-of-band and "
-        "out-of-range arguments (must be rejected); (f) seeded random histories incl. resize; (g) bandwidths >= n (tie only). "
+RULE = ("band.hist cases (initial compact storage with every padding slot set to a loud value, then operations; the state is dumped where the "
+        "history asks for it): (a) every (n,m1,m2), 0<=m1,m2<n, n=1..6 quick / 1..10 thorough (all 385 triples; quick adds a seeded sample of 36 "
+        "triples with n=7..10) x 7 rational sign patterns (mixed, negative dominant diagonal, zero diagonal over nonzero sub-diagonal, tiny positive "
+        "sub-diagonals under a negative diagonal, all negative, positive dominant, singular) x [getall, size, mulv, det, solve]; on every triple up to "
+        "n=6 (7 thorough) and a seeded sample of the larger ones: (b) the arithmetic operators and compound assignments, (c) f64 and Complex<f64> "
+        "(tiny sub-diagonals 1e-20, scaled rows, NaN/inf/1e300 padding; det/solve only where cond_inf <= 1e8; quick: n<=5 + sample), (d) padding "
+        "written through new / fill_band / index_mut (in-band, column >= n) / += constant; (e) mismatched sizes, out-of-band and out-of-range "
+        "arguments (must be rejected); (f) seeded random histories incl. resize; (g) bandwidths >= n (tie only). "
         "distinct = distinct executor line; non-trivial = n >= 2")
 TRUSTED = ["Coq 8.16.1 kernel + vm_compute", "Rust executor /verif/harness (Rat = i128 rationals; banded literals built through new/index_mut/resize)",
            "python driver: generators, dense-twin reference in Fraction / float, stream comparators",
@@ -176,24 +177,25 @@ def generate(rng, tier):
     g = rng.fork("lin")
     for (n, m1, m2) in T:
         for pat in PATTERNS:
-            reps = 2 if (thorough and n <= 6) else 1
-            for _ in range(reps):
-                B = gen_band(g, pat, n, m1, m2)
-                cases.append(mk('rat', B, LIN(g, 'rat', n), "rat-lin-" + pat))
-    # (b) arithmetic on every triple
+            B = gen_band(g, pat, n, m1, m2)
+            cases.append(mk('rat', B, LIN(g, 'rat', n), "rat-lin-" + pat))
+    # the secondary families run on every triple up to n = 6 (quick) / 7 (thorough) and on a seeded sample of the larger ones
+    # (the model side spends its time printing: the exhaustive sweep over all 385 triples is family (a))
+    T2 = T if not thorough else [t for t in T if t[0] <= 7] + rng.fork("sample2").shuffle([t for t in T if t[0] > 7])[:48]
+    # (b) arithmetic
     g = rng.fork("arith")
-    for (n, m1, m2) in T:
+    for (n, m1, m2) in T2:
         B = gen_band(g, "mixed", n, m1, m2, want_nonsingular=False)
         cases.append(mk('rat', B, arith_ops(g, 'rat', n, m1, m2, short=(n > 4)), "rat-arith"))
     # (c) floats: every triple in the thorough tier; quick: every triple up to n = 5 and a sample of the larger ones
     g = rng.fork("flt")
-    TF = T if thorough else [t for t in T if t[0] <= 5] + g.shuffle([t for t in T if t[0] > 5])[:16]
+    TF = T2 if thorough else [t for t in T if t[0] <= 5] + g.shuffle([t for t in T if t[0] > 5])[:16]
     for (n, m1, m2) in TF:
         for elt in ('f64', 'cplx'):
             pats = ["tiny-sub", "neg-diag", "zero-diag", "mixed", "all-neg"]
             # one pattern per (triple, element type) in the quick tier, two in the thorough tier (printing 64-bit
             # patterns is what the model side spends its time on)
-            chosen = g.shuffle(pats)[:(2 if thorough else 1)]
+            chosen = g.shuffle(pats)[:(2 if (thorough and n <= 5) else 1)]
             for p in chosen:
                 sc = 10.0 ** g.range(-6, 6) if g.chance(1, 3) else 1.0
                 wild = g.chance(1, 4)
@@ -212,7 +214,7 @@ def generate(rng, tier):
             cases.append(mk(elt, B, arith_ops(g, elt, n, m1, m2, short=True), elt + "-arith"))
     # (d) padding written through the API: new (fill value), fill_band (whole compact column), index_mut with column >= n, += constant
     g = rng.fork("pad")
-    for (n, m1, m2) in T:
+    for (n, m1, m2) in T2:
         if not thorough and n > 6 and g.chance(1, 2): continue
         B = gen_band(g, "mixed", n, m1, m2)
         ops = [("new", n, m1, m2, g.choice(PAD_RAT))]
